@@ -36,6 +36,18 @@ def tus(tier, seed):
         body += '}\n'
         comp = 'clang++' if (tier == 'thorough' and (i // per) % 3 == 2) else 'g++'
         res.append(dict(name='C04F_%d' % (i // per), src=body, compiler=comp))
+    # different radixes (all four sign combinations of the two exponents)
+    xs = [('i16', 1, 10, 'i16', 2, 2), ('i32', 2, 10, 'i32', 3, 2), ('i16', -2, 10, 'i32', -8, 2), ('i32', -1, 10, 'i16', 2, 2), ('u16', 1, 3, 'u32', -3, 2),
+          ('i32', -8, 2, 'i32', -2, 10), ('u8', 1, 2, 'u16', 1, 10), ('i64', 3, 10, 'i32', 5, 2), ('i16', 2, 2, 'i16', 1, 10)]
+    rnd = random.Random(seed * 13 + 4)
+    for _ in range(2 if tier == 'quick' else 16):
+        xs.append((rnd.choice(['i16', 'i32', 'u16', 'u32', 'i64']), rnd.randint(-3, 3), rnd.choice([10, 3]), rnd.choice(['i16', 'i32', 'u32', 'i64']), rnd.randint(-8, 8), 2))
+    for i in range(0, len(xs), 4):
+        body = '#define SEC_C04X 1\n#include "%s"\nint main(){ install(); Rng rng(seed_from_env()+%d);\n' % (hdr, 700 + i)
+        for (a, e1, r1, b, e2, r2) in xs[i:i + 4]:
+            body += '  gox<%s, %d, %d, %s, %d, %d>(rng);\n' % (C01.CT[a], e1, r1, C01.CT[b], e2, r2)
+        body += '}\n'
+        res.append(dict(name='C04X_%d' % (i // 4), src=body, compiler='g++'))
     return res
 
 
